@@ -57,6 +57,17 @@ R2_REVIEWED = {
     ('eval::ops::duration_to_ticks', 'Div', 'i128'): 'divisor is i128::from(resolution) with resolution == 0 rejected two statements earlier (test is on the un-widened value)',
 }
 
+# how many sites each reviewed key covered when it was reviewed: a further site with the same key was not looked at
+R2_REVIEWED_COUNT = {
+    ('eval::expr::access::array_offset', 'Add', 'i128'): 1, ('eval::expr::access::array_offset', 'Add', 'i64'): 1,
+    ('eval::expr::access::array_offset', 'Mul', 'i128'): 2, ('eval::expr::access::array_offset', 'Sub', 'i64'): 2,
+    ('eval::ops::duration_to_ticks', 'Div', 'i128'): 1,
+    ('runtime::cycle::<impl trust_runtime::runtime::core::Runtime>::collect_ready_tasks', 'Div', 'i64'): 2,
+    ('runtime::cycle::<impl trust_runtime::runtime::core::Runtime>::collect_ready_tasks', 'Sub', 'i64'): 1,
+    ('stdlib::fbs::timers::Tof::step', 'Add', 'i64'): 1, ('stdlib::fbs::timers::Ton::step', 'Add', 'i64'): 1,
+    ('stdlib::fbs::timers::Tp::step', 'Add', 'i64'): 1, ('stdlib::fbs::timers::elapsed_since', 'Sub', 'i64'): 1,
+}
+
 # ---- R3 reviewed panic sites
 PANIC = re.compile(r'(Option|Result)::<.*>::(unwrap|expect|unwrap_err|expect_err)$|^core::panicking::|^std::rt::begin_panic|'
                    r'^std::process::(exit|abort)$|^core::option::(unwrap_failed|expect_failed)$|^core::result::unwrap_failed$|'
@@ -72,6 +83,9 @@ R3_REVIEWED = {
     ('io::modbus::ModbusTcpDriver::send_request', 'copy_from_slice'): 'fixed 2-byte header fields filled from u16::to_be_bytes()',
     ('io::modbus::ModbusTcpDriver::write_registers', 'copy_from_slice'): 'payload was extended by byte_count = data.len() zero bytes immediately before',
 }
+
+# sites per reviewed key at review time (a further site with the same key was not reviewed)
+R3_REVIEWED_COUNT = {('io::modbus::ModbusTcpDriver::send_request', 'copy_from_slice'): 3}
 
 
 def _short(fid):
@@ -196,6 +210,7 @@ def rules_r2(ctx, scope, rid='C01.R2', floor=100, strict=True):
     r2 = ctx.rule(rid, 'no unchecked fixed-width arithmetic on program values: every overflow/neg/div-by-zero assert site in the evaluator core is discharged or reviewed',
                   floor=floor, floor_what='arithmetic assert sites')
     forbidden = re.compile(r'core::num::<impl (i|u)(8|16|32|64|128)>::(pow|abs|wrapping_\w+|overflowing_\w+|unchecked_\w+)$')
+    seen_reviewed = {}
     for k in sorted(fx.fns):
         if not k.startswith(scope):
             continue
@@ -217,8 +232,14 @@ def rules_r2(ctx, scope, rid='C01.R2', floor=100, strict=True):
                 continue
             rk = (_short(base), op, ty)
             if rk in R2_REVIEWED:
-                r2.excepted(key, R2_REVIEWED[rk], loc=fn.loc(b))
-                continue
+                seen_reviewed[rk] = seen_reviewed.get(rk, 0) + 1
+                if seen_reviewed[rk] <= R2_REVIEWED_COUNT.get(rk, 1):
+                    r2.excepted(key, R2_REVIEWED[rk], loc=fn.loc(b))
+                    continue
+                if strict:
+                    r2.bad(key, 'a further unchecked `%s` on %s in %s beyond the %d site(s) that were reviewed for this function: the review argument (%s) was not made for it' % (
+                        op, ty, _short(base).split('::')[-1], R2_REVIEWED_COUNT.get(rk, 1), R2_REVIEWED[rk][:80]), loc=fn.loc(b))
+                    continue
             what = {'Overflow': 'unchecked `%s` on %s' % (op, ty), 'OverflowNeg': 'unchecked negation on %s' % ty,
                     'DivisionByZero': 'division whose divisor is not tested against zero', 'RemainderByZero': 'remainder whose divisor is not tested against zero'}[kind]
             if strict:
@@ -243,6 +264,7 @@ def rules_r3(ctx):
     if EXEC_CYCLE not in fx.fns:
         r3.bad('anchor-missing|execute_cycle', 'Runtime::execute_cycle not found')
         return
+    seen_r3 = {}
     R = ctx.cg.reach([EXEC_CYCLE])
     r3.note('%d bodies reachable from execute_cycle (%d local)' % (len(R), sum(1 for n in R if n in fx.fns)))
     for n in sorted(R):
@@ -269,8 +291,10 @@ def rules_r3(ctx):
                     continue
             base = _short(n.split('::{closure')[0])
             if (base, short) in R3_REVIEWED:
-                r3.excepted(key, R3_REVIEWED[(base, short)], loc=fn.loc(b))
-                continue
+                seen_r3[(base, short)] = seen_r3.get((base, short), 0) + 1
+                if seen_r3[(base, short)] <= R3_REVIEWED_COUNT.get((base, short), 1):
+                    r3.excepted(key, R3_REVIEWED[(base, short)], loc=fn.loc(b))
+                    continue
             chain = ctx.cg.chain(EXEC_CYCLE, {n}) or []
             r3.bad(key, 'explicit panic site %s reachable from the scan cycle and not in the reviewed table' % nm, loc=fn.loc(b),
                    witness={'call_chain': chain[:12]})
